@@ -496,3 +496,69 @@ Proof.
       * lia.
       * lia.
 Qed.
+
+(* ---------------------------------------------------------------- tags / trailing context *)
+Lemma split_go_sound r1 r2 w : forall k k',
+  split_go r1 r2 w k = Some k' ->
+  k' <= k /\ matches r1 (firstn k' w) /\ matches r2 (skipn k' w).
+Proof.
+  induction k as [|k IH]; intros k' H; cbn [split_go] in H;
+    destruct (matchb r1 (firstn _ w) && matchb r2 (skipn _ w)) eqn:E.
+  - inversion H; subst. apply andb_true_iff in E. destruct E as [E1 E2].
+    apply matchb_spec in E1. apply matchb_spec in E2. auto.
+  - discriminate H.
+  - inversion H; subst. apply andb_true_iff in E. destruct E as [E1 E2].
+    apply matchb_spec in E1. apply matchb_spec in E2. auto.
+  - apply IH in H. destruct H as (H1 & H2 & H3). auto.
+Qed.
+
+Lemma split_go_complete r1 r2 w : forall k k',
+  k' <= k -> matches r1 (firstn k' w) -> matches r2 (skipn k' w) -> split_go r1 r2 w k <> None.
+Proof.
+  induction k as [|k IH]; intros k' Hle H1 H2; cbn [split_go];
+    destruct (matchb r1 (firstn _ w) && matchb r2 (skipn _ w)) eqn:E; try discriminate.
+  - assert (k' = 0) by lia. subst. apply matchb_spec in H1. apply matchb_spec in H2.
+    rewrite H1, H2 in E. discriminate E.
+  - destruct (PeanoNat.Nat.eq_dec k' (S k)) as [-> | Hne].
+    + apply matchb_spec in H1. apply matchb_spec in H2. rewrite H1, H2 in E. discriminate E.
+    + apply (IH k'); [lia | assumption | assumption].
+Qed.
+
+(* a block with one tagged rule r1 @t r2: default action, or the action with the cursor L at the end of the
+   longest match of r1 r2 in the padded input and the tag k at an admissible start of r2 *)
+Lemma run_rules_tag r1 r2 a d pad s :
+  run_rules [RTag r1 r2 a] d pad s = mkOutcome d 1 0 \/
+  exists L k, run_rules [RTag r1 r2 a] d pad s = mkOutcome a L k /\
+              L <= length s + pad /\ k <= L /\
+              matches r2 (skipn k (firstn L (s ++ repeat x00 pad))).
+Proof.
+  unfold run_rules. cbn [pick_rule rule_re].
+  destruct (longest_match (Cat r1 r2) (s ++ repeat x00 pad)) as [L|] eqn:E; [right | left; reflexivity].
+  apply longest_match_spec in E. destruct E as (HL & Hm & _).
+  rewrite app_length, repeat_length in HL.
+  apply matches_Cat in Hm. destruct Hm as (p1 & p2 & E & H1 & H2).
+  set (w := firstn L (s ++ repeat x00 pad)) in *.
+  assert (Hlen : length w = L) by (apply firstn_length_le; rewrite app_length, repeat_length; exact HL).
+  assert (Hk : length p1 <= L) by (rewrite <- Hlen, E, app_length; lia).
+  assert (F : firstn (length p1) w = p1) by (rewrite E, firstn_app, PeanoNat.Nat.sub_diag, firstn_all; simpl; apply app_nil_r).
+  assert (S' : skipn (length p1) w = p2) by (rewrite E, skipn_app, PeanoNat.Nat.sub_diag, skipn_all; reflexivity).
+  destruct (split_go r1 r2 w L) as [k|] eqn:Es.
+  - apply split_go_sound in Es. destruct Es as (Hle & _ & M2). exists L, k. auto.
+  - exfalso. apply (split_go_complete r1 r2 w L (length p1)); [exact Hk | rewrite F; exact H1 | rewrite S'; exact H2 | exact Es].
+Qed.
+
+(* tasklist: the index s[t1] is always in bounds *)
+Lemma rules_tasklist_shape :
+  exists r1 r2, rules_tasklist = [RTag r1 r2 ActTasklist] /\ default_tasklist = ActNone /\ pad_tasklist = 1
+                /\ min_len r2 = 3.
+Proof. eexists. eexists. repeat split. Qed.
+
+Theorem tasklist_no_panic s : exists r, scan_tasklist s = Ok r.
+Proof.
+  unfold scan_tasklist. destruct rules_tasklist_shape as (r1 & r2 & -> & -> & -> & Hmin).
+  destruct (run_rules_tag r1 r2 ActTasklist ActNone 1 s) as [E | (L & k & E & HL & Hk & M)]; rewrite E;
+    unfold as_tasklist; cbn [o_act o_cursor o_tag]; [eauto |].
+  apply min_len_le in M. rewrite Hmin, skipn_length, firstn_length_le in M
+    by (rewrite app_length; simpl; lia).
+  destruct (nth_error s k) eqn:En; [eauto |]. apply nth_error_None in En. lia.
+Qed.
